@@ -72,6 +72,11 @@ def gen_traj_data(seed, n, profile):
         pos[i] = p
         quat[i] = q
         ts[i] = t
+    tz = profile.get("tzero")
+    if tz == "first":
+        ts = ts - ts[0]  # zero-based time, first stamp exactly 0.0
+    elif tz == "mid":
+        ts = ts - ts[n // 2]  # time relative to an event: negative stamps
     if profile.get("flat"):
         pos[:, profile["flat"] - 1] = 0.0
     return pos, quat, ts
